@@ -170,4 +170,8 @@ PROPS = {
     'C14': dict(jobs=jobs_pipe('C14'), tv=('front', 'pipe'), assumptions=PIPE_ASSUME,
                 explanation='Same exploration; assertion: alignment in which a blank may only be deleted if it is not strictly between the first and last '
                             'non-blank byte of its stretch (maximal run without removed bytes; per line inside an unwrapped body).'),
+    'C11': dict(jobs=props_pipe.c11_jobs, tv=('front', 'pipe'), assumptions=PIPE_ASSUME,
+                explanation='clean on block documents around one unwrap-block element with k = 0..6 lines between its tags (indentation and line text '
+                            'symbolic, blank inner lines, nested ready / pending default elements): for k >= 2 the surviving non-blank lines are exactly '
+                            'the input minus tag lines and wrapper lines; for k < 2 the output is byte-identical.'),
 }
